@@ -107,6 +107,9 @@ def run(ctx):
     for _ in range(ctx.n(200, 3000)):
         p = fn.gen(ctx.rng)
         x, y = np.array(p["x"]), np.array(p["y"]); seed = ctx.rng.randint(0, 10**9)
+        if all(float(v).is_integer() for v in p["x"] + p["y"]) and ctx.rng.random() < 0.4:
+            # counts / ranks stored as integers, shifted by a fraction: nothing may be truncated back to the integer type
+            x, y = x.astype(np.int64), y.astype(np.int64); p["shift"] = ctx.rng.choice([0.5, -1.5, 2.75, 0.25]); ctx.count("integer-data-fractional-shift")
         kw = dict(reps=p["reps"], alternative=p["alt"], keep_dist=True, plus1=p["plus1"])
         stat = ctx.rng.choice(["mean", "t", "callable"])
         if stat == "t" and (len(p["x"]) + len(p["y"]) < 4 or len(set(p["x"] + p["y"])) < 3):
@@ -147,8 +150,9 @@ def run(ctx):
         if rc[0] == "ok" and stat == "mean":
             obs = sum(F(v) for v in p["x"]) / len(p["x"]) - sum(F(v) for v in p["y"]) / len(p["y"])
             r3 = guarded(core.two_sample, x, y + d, stat="mean", seed=seed, **kw)
-            if not close(rc[1][1], obs) or r3[0] != "ok" or abs(r3[1][0] - rc[1][0]) > 1e-12:
-                det2 = dict(det); det2.update({"issue": "shift d: not the statistic of the data as given / not the p-value of two_sample(x, y+d) under the same seed",
+            same_dist = r3[0] == "ok" and len(rc[1][2]) == len(r3[1][2]) and all(abs((a_ - d) - b_) <= 1e-9 * max(1.0, abs(b_), abs(d)) for a_, b_ in zip(rc[1][2], r3[1][2]))
+            if not close(rc[1][1], obs) or r3[0] != "ok" or abs(r3[1][0] - rc[1][0]) > 1e-12 or not same_dist:
+                det2 = dict(det); det2.update({"issue": "shift d: not the statistic of the data as given / not the p-value (or, up to the constant d, the distribution) of two_sample(x, y+d) under the same seed",
                                                "returned": [float(rc[1][0]), float(rc[1][1])], "two_sample_translated": str(r3)[:200], "statistic_expected": float(obs)})
                 ctx.violation("oracle", det2, site="two_sample_shift")
     # ---- very large constant shifts (|d| >= 2^53: y + d absorbs y in doubles).  Exact agreement with two_sample(x, y+d) is not
